@@ -33,6 +33,7 @@ func runC11(c *core.Ctx) {
 	ruleNilEntryDiscipline(c)
 	rulePublishedNotRecycled(c, "C11-R9", "pdf")
 	ruleCopierStructure(c)
+	ruleCopyOneStep(c)
 	ruleInStreamGuards(c, "C11-R8") // copied streams: dictionary strings are encrypted under the target object's key
 }
 
@@ -861,5 +862,33 @@ func ruleCopierStructure(c *core.Ctx) {
 		if g.ReachFrom(body, true, core.AvoidVs(stores...))[head] {
 			o.Fail("%s: an iteration can finish without storing an element: the output array is shorter than the input and /DecodeParms no longer lines up with /Filter", c.Prog.Pos(head.Cond.Range.Pos()))
 		}
+	})
+}
+
+// ruleCopyOneStep (C11-R11): an indirect object whose value is itself a
+// reference ("5 0 obj 6 0 R endobj") is a node of the source graph like any
+// other.  CopyReference must copy that node (its value is the reference,
+// which Copy translates), not the value at the end of the reference chain:
+// resolving the chain copies the final object once per entry point, so an
+// object reachable both through the chain and directly is duplicated and is
+// no longer shared in the target.  CopyReference obtains the object with one
+// Get on the source and never calls the chain-following resolvers.
+func ruleCopyOneStep(c *core.Ctx) {
+	c.Check("C11-R11", "pdf.(*Copier).CopyReference/one-step", "the object behind a reference is fetched with a single Get; reference chains are preserved, not collapsed", func(o *core.Ob) {
+		fn := c.Prog.Func("pdf", "(*Copier).CopyReference")
+		info := fn.Info()
+		gets := 0
+		for _, cs := range core.CallsIn(info, fn.Decl, true) {
+			switch cs.Key {
+			case "pdf.Resolve", "pdf.resolve", "pdf.resolvePath", "pdf.GetDict", "pdf.GetArray", "pdf.GetStream":
+				o.Count(1)
+				o.FailAt(fn.Site(cs.Call, ""), "%s: %s follows a chain of references to its end: an object whose value is a reference is replaced by a second copy of the final object, which is then no longer shared with the direct references to it", c.Prog.Pos(cs.Call.Pos()), cs.Key)
+			case "pdf.Getter.Get":
+				gets++
+				o.Count(1)
+				o.At(fn.Site(cs.Call, "fetches the object"))
+			}
+		}
+		o.Require(gets == 1 || o.Status != core.Discharged, "expected exactly one Get on the source, found %d", gets)
 	})
 }
